@@ -144,7 +144,14 @@ func assembleBlindedDestination(dest destination.Destination, blindedPubKey [32]
 			oops.Wrapf(ErrBlindingFailed, "failed to construct blinded keys and cert: %w", err)
 	}
 
-	return destination.Destination{KeysAndCert: blindedKeysAndCert}, nil
+	// Go through the Destination constructor so that the Destination key-type
+	// policy applies to the blinded identity as to every other Destination.
+	blindedDest, err := destination.NewDestination(blindedKeysAndCert)
+	if err != nil {
+		return destination.Destination{},
+			oops.Wrapf(ErrBlindingFailed, "blinded destination violates the destination key-type policy: %w", err)
+	}
+	return *blindedDest, nil
 }
 
 // VerifyBlindedSignature verifies that a blinded destination was correctly derived
